@@ -25,7 +25,7 @@ ASSUMPTIONS = [
 ]
 
 
-QUICK_BUDGET = {"cases": 480, "deadline_s": 170, "case_timeout_s": 90, "floors": {"status_rows": 758, "filtered_views": 502, "previews_snapshotted": 840, "run_compared": 168}}
+QUICK_BUDGET = {"cases": 480, "deadline_s": 170, "case_timeout_s": 90, "floors": {"status_rows": 758, "filtered_views": 502, "previews_snapshotted": 840, "run_compared": 168, "ghost_ids_tracked": 50}}
 THOROUGH_FACTOR = 18  # thorough = the same workload with 18x the cases (floors scale along)
 
 
@@ -141,6 +141,15 @@ def run_case(case):
             jid = scenario.place_state(sim, sched, n, s)
             if jid is not None:
                 tracked[n] = jid
+        # some targets are tracked with an id the scheduler has no record of right now (accounting lag, purged job):
+        # they look unknown, and a preview must leave those ids where they are
+        import random as _random
+
+        gr = _random.Random(case["first_id"] * 31 + len(ts))
+        for n, s in sorted(case["bstate"].items()):
+            if s == "unknown" and gr.random() < 0.3:
+                tracked[n] = str(880000 + gr.randrange(1000))
+                res.mon("ghost_ids_tracked")
         os.makedirs(os.path.join(proj.root, ".gwf", "logs"), exist_ok=True)
         if tracked:
             proj.write_state(scenario.tracked_file(sched), tracked)
